@@ -210,6 +210,10 @@ class StateMachine:
         :param kwds: items to put as attributes on the state machine
         """
         kwds.setdefault('cleanup', None)  # cleanup must be given on each restart
+        cls = type(self)
+        for key in kwds:
+            if hasattr(cls, key):  # refuse here, not later in the middle of cycle()
+                raise AttributeError(f'can not set {cls.__name__}.{key}')
         with self._lock:
             self.next_task = Start(statefunc, kwds)
 
